@@ -9,8 +9,13 @@
 
   Observations are made with `stat t q` (nothing / a file with its bytes / a directory at the
   component path `q`): two trees with the same `stat` everywhere have the same listing.
+
+  Props/C18History.lean : what holds over HISTORIES — frame for every command, the asking commands
+                          change nothing, well-formedness of every reachable tree, last writer
+                          wins, directory sources of mv/cp are skipped.
 -/
 import DuckModel.Sdk.FsTree
+import DuckModel.Props.C18History
 import DuckModel.Lemmas.FsTreeLemmas
 import DuckModel.Lemmas.Utf8DecodeLemmas
 
@@ -161,7 +166,10 @@ theorem C18_cp_file (t t' : Node) (src dst : P) (v : Val)
     code's rule selects, then delete the source".  The target is `dst` itself when `dst` is an
     existing file, or is missing, has no trailing separator and its name has an extension
     ("move to file"); otherwise it is `dst/<basename of src>` ("move into the — possibly new —
-    directory `dst`").  The copy succeeds and the delete succeeds. -/
+    directory `dst`").  The copy succeeds and the delete succeeds.
+    That a directory source is answered `skip` with the tree untouched, and that a successful
+    `mv` always had a file source, are theorems: `C18_mv_directory_source_skipped`,
+    `C18_mv_outcome_by_source` (Props/C18History.lean). -/
 theorem C18_mv_eq_cp_rm_partial (t t' : Node) (src dst : P) (v : Val)
     (h : mv t src dst = (t', .ok v)) :
     let target : P := { comps := mvTarget t src dst, trail := false }
